@@ -11,26 +11,34 @@ cd $WT && git checkout -q -- . && git clean -fdq
 git apply --check $SRC/$K.diff
 git apply $SRC/$K.diff
 suite=ok
-for i in 1 2 3; do go test -vet=off -count=1 ./... >/tmp/seed-suite.log 2>&1 || suite=FAIL; done
+for i in 1 2 3; do go test -vet=off -count=1 ./... >/tmp/seed-$P$TAG-suite.log 2>&1 || suite=FAIL; done
 cp $SRC/${K}_demo_test.go $WT/zz_${K}_demo_test.go
-if go test -vet=off -count=1 -run "^$demo\$" . >/tmp/seed-demo-with.log 2>&1; then with=pass; else with=fail; fi
+if go test -vet=off -count=1 -run "^$demo\$" . >/tmp/seed-$P$TAG-demo-with.log 2>&1; then with=pass; else with=fail; fi
 git checkout -q -- .
-if go test -vet=off -count=1 -run "^$demo\$" . >/tmp/seed-demo-without.log 2>&1; then without=pass; else without=fail; fi
+if go test -vet=off -count=1 -run "^$demo\$" . >/tmp/seed-$P$TAG-demo-without.log 2>&1; then without=pass; else without=fail; fi
 rm -f $WT/zz_${K}_demo_test.go
 echo "suite-with-change=$suite demo-with=$with demo-without=$without"
 [ "$suite" = ok ] && [ "$with" = fail ] && [ "$without" = pass ] || { echo "NOT A VALID SEED"; exit 3; }
 set +e
 mkdir -p $OUT && cp $SRC/$K.diff $OUT/patch.diff && cp $SRC/${K}_demo_test.go $OUT/demo_test.go && cp $SRC/$K.md $OUT/notes.md
-cd /repo && git apply $OUT/patch.diff || { echo "patch does not apply to /repo"; exit 4; }
+# with SNAP and WT set, the checks run from a snapshot of /verif ($SNAP, its harness pointing at the worktree $WT)
+# instead of /verif and /repo, so that both stay free (tools/seed_batch.sh prepares the two)
+REPO=${WT:-/repo}; VERIF=${SNAP:-/verif}
+cd $REPO
+if ! git apply $OUT/patch.diff 2>/dev/null; then
+  # fix commits made after the sub-agent's worktree was created moved the context: 3-way, keep the rebased diff
+  git apply --3way $OUT/patch.diff >/dev/null 2>&1 || { echo "patch does not apply to /repo"; git reset -q --hard HEAD; exit 4; }
+  cp $OUT/patch.diff $OUT/patch.orig.diff; git diff --cached > $OUT/patch.diff; git reset -q
+fi
 res=""
 for prop in $P "$@"; do
-  cp /verif/evidence/$prop.json /tmp/seed-evidence-$prop.json 2>/dev/null
-  (cd /verif && ./bin/vcheck -p $prop -tier quick > /tmp/seed-vcheck-$prop.log 2>&1); code=$?
+  cp $VERIF/evidence/$prop.json /tmp/seed-$P$TAG-evidence-$prop.json 2>/dev/null
+  (cd $VERIF && ./bin/vcheck -p $prop -tier quick > /tmp/seed-$P$TAG-vcheck-$prop.log 2>&1); code=$?
   res="$res $prop:exit$code"
-  tail -3 /tmp/seed-vcheck-$prop.log
-  cp /tmp/seed-evidence-$prop.json /verif/evidence/$prop.json 2>/dev/null
-  rm -f /verif/evidence/replays/$prop-*.json
+  tail -3 /tmp/seed-$P$TAG-vcheck-$prop.log
+  cp /tmp/seed-$P$TAG-evidence-$prop.json $VERIF/evidence/$prop.json 2>/dev/null
+  rm -f $VERIF/evidence/replays/$prop-*.json
 done
-git -C /repo checkout -- . ; git -C /repo status --short
+git -C $REPO checkout -- . ; git -C $REPO status --short
 echo "RESULT $P-$K$TAG:$res"
 echo "$res" > $OUT/vcheck_result.txt
